@@ -3,6 +3,7 @@ package checks
 import (
 	"fmt"
 	"sort"
+	"strconv"
 	"strings"
 	"time"
 
@@ -20,6 +21,7 @@ func init() {
 			Property: "C07",
 			Rule: "for every script of a family (variables set before and after jumps, visited_count of every node shown in lines, option groups, a command that never completes, tracking: never nodes, a host-populated storer and a storer empty at creation, ends), every path of an original runner up to the save bound, every step of it as save point (Snapshot), optional host write, every continuation of the original up to a bound; " +
 				"every receiving runner (the original itself, or a fresh runner of the same script driven along every path up to a bound: fresh, mid-node, waiting for a choice, waiting for a command, ended; with optional host write), optional RestoreAt of a snapshot naming an unknown node first, then RestoreAt(snapshot), optional second runner restored from the same snapshot and stepped alternately, every continuation path up to a bound, optional second restore of the same snapshot; " +
+				"at most one host write between two steps before the save point; receivers that hold the snapshot's variables under another type with the same display form; HS: snapshots built by the host (every node x variables nil / empty / {x} x visit counts nil / empty / {A:2}) restored into a runner in every state and continued along every path; " +
 				"oracle on every transition: elements and storer contents equal those of the reference interpreter restarted from its node-entry checkpoint; every snapshot value held is deep-equal to the frozen copy taken when it was made and to the model checkpoint (nil = empty map); a snapshot taken right after the restore equals the restored one; the unknown-node restore fails and leaves the reflective dump of runner and storer unchanged; " +
 				"a case is one (script, original path, save point, receiver state, continuation); non-trivial = the save point is after at least one jump or the receiver is not fresh",
 			StatesMean:  "(script, history of operations) prefixes visited on the real runners; transitions = real Next / Snapshot / RestoreAt calls compared with the model",
@@ -282,6 +284,39 @@ func (x *c07Runner) hostWrite(v float64) {
 	x.trace = append(x.trace, fmt.Sprintf("%s: host writes x=%v hosted=\"h\"", x.name, v))
 }
 
+// confuseTypes writes every variable of vars into the storer under another type with the same display form.
+func (x *c07Runner) confuseTypes(vars map[string]yc.Value) {
+	var names []string
+	for k := range vars {
+		names = append(names, k)
+	}
+	sort.Strings(names)
+	for _, k := range names {
+		v := vars[k]
+		var nv yc.Value
+		switch v.K {
+		case yc.VNum, yc.VBool:
+			nv = yc.Str(v.Display())
+		default:
+			if f, err := strconv.ParseFloat(v.S, 64); err == nil {
+				nv = yc.Num(f)
+			} else {
+				nv = yc.Num(0)
+			}
+		}
+		switch nv.K {
+		case yc.VStr:
+			x.st.SetStringValue(k, nv.S)
+		case yc.VNum:
+			x.st.SetNumberValue(k, nv.N)
+		}
+		if x.rest == nil {
+			x.m.Store[k] = nv
+		}
+		x.trace = append(x.trace, fmt.Sprintf("%s: host writes %s=%s (another type, same display)", x.name, k, nv))
+	}
+}
+
 func (x *c07Runner) bogusRestore() string {
 	before := dump.Values(x.r.DR, x.st)
 	var err error
@@ -303,7 +338,7 @@ type c07Bounds struct{ pre, mid, recv, cont int }
 
 // restoreExplore is the exploration shared by C07 and the restore family of C11.
 func restoreExplore(ctx *report.Ctx, partName string, scripts []*yc.Program, hs *yc.HostSpec, b c07Bounds) {
-	part(ctx, partName, -1, func(c *explore.Chooser) {
+	part(ctx, partName, 1, func(c *explore.Chooser) {
 		si := c.Choose(len(scripts), "script")
 		p := scripts[si]
 		srcs := yc.Render(p, nil)
@@ -329,6 +364,11 @@ func restoreExplore(ctx *report.Ctx, partName string, scripts []*yc.Program, hs 
 		drive := func(x *c07Runner, n int, label string, snaps []*c07Snap) bool {
 			k := c.Choose(n+1, label+"-steps")
 			for i := 0; i < k; i++ {
+				if label == "pre" && c.ChooseDev(2, "host-write-between-steps") == 1 {
+					// a value written by the host (or by a handler) between two steps, with no set statement after
+					// it, is part of the state the next node entry checkpoints (at most one such write per case)
+					x.hostWrite(33)
+				}
 				ch := c.Choose(x.choices(), label+"-choice")
 				d := x.step(ch)
 				if d == "HORIZON" {
@@ -361,7 +401,16 @@ func restoreExplore(ctx *report.Ctx, partName string, scripts []*yc.Program, hs 
 			return
 		}
 		snaps := []*c07Snap{snap}
-		if c.Choose(2, "host-write-original") == 1 {
+		// a case that spent its host write before the save point explores the plain continuation only (restore into
+		// the original, no twin, no second restore): the write matters for what the snapshot holds and restores
+		plain := c.Spent() > 0
+		pick := func(n int, label string) int {
+			if plain {
+				return 0
+			}
+			return c.Choose(n, label)
+		}
+		if pick(2, "host-write-original") == 1 {
 			r0.hostWrite(77)
 			if fd := snap.checkFrozen("after a host write to the storer"); fd != "" {
 				fail("snapshot-not-self-contained", fd)
@@ -373,7 +422,7 @@ func restoreExplore(ctx *report.Ctx, partName string, scripts []*yc.Program, hs 
 		}
 		// the receiver
 		recv := r0
-		recvKind := c.Choose(2, "receiver")
+		recvKind := pick(2, "receiver")
 		if !c.Mine() { // shard on everything up to here: many small prefixes balance the workers
 			return
 		}
@@ -386,11 +435,16 @@ func restoreExplore(ctx *report.Ctx, partName string, scripts []*yc.Program, hs 
 			if !drive(recv, b.recv, "recv", snaps) {
 				return
 			}
-			if c.Choose(2, "host-write-receiver") == 1 {
+			switch c.Choose(3, "host-write-receiver") {
+			case 1:
 				recv.hostWrite(55)
+			case 2:
+				// the receiver holds every variable of the snapshot under another type but with the same display
+				// form (number 1 / string "1", true / "True"): the restore must still install the snapshot's values
+				recv.confuseTypes(snap.cp.Vars)
 			}
 		}
-		if c.Choose(2, "unknown-node-restore-first") == 1 {
+		if pick(2, "unknown-node-restore-first") == 1 {
 			if d := recv.bogusRestore(); d != "" {
 				fail("unknown-node-restore", d)
 				return
@@ -415,7 +469,7 @@ func restoreExplore(ctx *report.Ctx, partName string, scripts []*yc.Program, hs 
 		snaps = append(snaps, again)
 		// optionally a second runner restored from the same snapshot, stepped alternately
 		var twin *c07Runner
-		if c.Choose(2, "twin") == 1 {
+		if pick(2, "twin") == 1 {
 			twin = newRunner("R2")
 			if twin == nil {
 				return
@@ -453,7 +507,7 @@ func restoreExplore(ctx *report.Ctx, partName string, scripts []*yc.Program, hs 
 			}
 		}
 		// the snapshot is still good for a second restore
-		if c.Choose(2, "second-restore") == 1 {
+		if pick(2, "second-restore") == 1 {
 			if d := recv.restore(snap); d != "" {
 				fail("restore-failed", d)
 				return
@@ -487,6 +541,93 @@ func restoreExplore(ctx *report.Ctx, partName string, scripts []*yc.Program, hs 
 	})
 }
 
+// hostSnapshots: snapshots the host builds itself (a save file holding only part of the fields): nil and empty maps
+// mean the same (nothing recorded); restoring one and running every continuation never panics and goes on exactly
+// as the reference interpreter restarted from that node with those variables and no visits.
+func hostSnapshots(ctx *report.Ctx, scripts []*yc.Program, hs *yc.HostSpec, recvSteps, cont int) {
+	part(ctx, "HS", -1, func(c *explore.Chooser) {
+		si := c.Choose(len(scripts), "script")
+		p := scripts[si]
+		node := p.Nodes[c.Choose(len(p.Nodes), "node")]
+		varsKind := c.Choose(3, "variables") // nil, empty, {x}
+		visitsKind := c.Choose(3, "visits")  // nil, empty, {A:2}
+		if node != p.Nodes[0] && varsKind != 2 {
+			return // only the start nodes of the family set $x before reading it
+		}
+		srcs := yc.Render(p, nil)
+		x, e := newC07Runner("R", p, srcs, hs)
+		if x == nil {
+			ctx.HarnessError("HS: %s", e)
+			return
+		}
+		fail := func(clause, detail string) {
+			ctx.Violation(report.Violation{Clause: clause, Witness: fmt.Sprintf("script %d node %s host-built snapshot variables-kind %d visits-kind %d ops %v", si, node.Title, varsKind, visitsKind, c.Choices()),
+				Detail: detail + " -- operations: " + strings.Join(x.trace, " | ") + " -- script: " + srcs[0], Choices: c.Choices(), Part: "HS", Extra: map[string]any{"scripts": srcs, "operations": x.trace}})
+		}
+		k := c.Choose(recvSteps+1, "recv-steps")
+		for i := 0; i < k; i++ {
+			d := x.step(c.Choose(x.choices(), "recv-choice"))
+			if d == "HORIZON" {
+				break
+			}
+			if d != "" {
+				fail("restore-trace", d)
+				return
+			}
+		}
+		if !c.Mine() {
+			return
+		}
+		ctx.Current(fmt.Sprintf("HS: script %d choices %v", si, c.Choices()))
+		snap := &ysgo.Snapshot{CurrentNode: node.Title}
+		cp := yc.Checkpoint{Node: node.Title, Vars: map[string]yc.Value{}, Visits: map[string]int{}}
+		switch varsKind {
+		case 1:
+			snap.Variables = map[string]variable.Value{}
+		case 2:
+			snap.Variables = map[string]variable.Value{"x": *variable.NewNumber(1)}
+			cp.Vars["x"] = yc.Num(1)
+		}
+		switch visitsKind {
+		case 1:
+			snap.VisitedNodes = map[string]int{}
+		case 2:
+			snap.VisitedNodes = map[string]int{"A": 2}
+			cp.Visits["A"] = 2
+		}
+		cs := &c07Snap{real: snap, cp: cp, frozen: dump.String(snap), from: "the host"}
+		if d := x.restore(cs); d != "" {
+			fail("restore-failed", d)
+			return
+		}
+		n := c.Choose(cont+1, "cont-steps")
+		for i := 0; i < n; i++ {
+			d := x.step(c.Choose(x.choices(), "cont-choice"))
+			if d == "HORIZON" {
+				break
+			}
+			ctx.AddTransitions(1)
+			if d != "" {
+				fail("restore-trace", d)
+				return
+			}
+			if fd := cs.checkFrozen("after Next following the restore"); fd != "" {
+				fail("snapshot-not-self-contained", fd)
+				return
+			}
+		}
+		if again, d := x.snapshot(); d != "" {
+			fail("snapshot-content", d)
+			return
+		} else if again != nil {
+			_ = again
+		}
+		ctx.AddEvals(1, 1)
+		ctx.AddStates(int64(x.nSteps))
+		ctx.AddTraces(1)
+	})
+}
+
 func runC07(ctx *report.Ctx) {
 	b := report.Pick(ctx, c07Bounds{pre: 4, mid: 1, recv: 3, cont: 3}, c07Bounds{pre: 7, mid: 3, recv: 5, cont: 5})
 	ctx.Bound("steps_before_save / continuation_of_original / receiver_steps / continuation_after_restore", fmt.Sprintf("%d / %d / %d / %d", b.pre, b.mid, b.recv, b.cont))
@@ -497,5 +638,6 @@ func runC07(ctx *report.Ctx) {
 		b0 = c07Bounds{pre: 2, mid: 1, recv: 3, cont: 2}
 	}
 	restoreExplore(ctx, "SR0", c07Scripts(false), noVars, b0)
+	hostSnapshots(ctx, c07Scripts(false), noVars, report.Pick(ctx, 2, 4), report.Pick(ctx, 5, 7))
 	restoreExplore(ctx, "SR", c07Scripts(true), c07Host, b)
 }
